@@ -688,8 +688,20 @@ def lexer_map(F):
         if m.get("k") != "Match":
             continue
         for a in m["arms"]:
-            pats = a["pat"]["alts"] if a["pat"]["pk"] == "or" else [a["pat"]]
-            keys = [p["e"]["v"] for p in pats if p["pk"] == "expr" and "v" in p["e"]]
+            def keys_of(p):
+                """the literal(s) an arm pattern tests: `"mod"`, `"to" | "in"`, or one literal component of a tuple pattern whose
+                other components test something else (`(None, "mod")` when the word is matched next to a table lookup)"""
+                if p["pk"] == "expr" and "v" in p["e"]:
+                    return [p["e"]["v"]]
+                if p["pk"] == "or":
+                    return [k for q in p["alts"] for k in keys_of(q)]
+                if p["pk"] == "tuple":
+                    with_lits = [ks for ks in (keys_of(q) for q in p.get("subs", [])) if ks]
+                    return with_lits[0] if len(with_lits) == 1 else []
+                if p["pk"] in ("ref", "deref") and p.get("sub"):
+                    return keys_of(p["sub"])
+                return []
+            keys = keys_of(a["pat"])
             if not keys:
                 continue
             toks = []
